@@ -378,9 +378,13 @@ def jobToks (j : Job) : List Tok :=
 def JobsCover (secs : List Sec) (jobs : List Job) : Bool :=
   jobs.flatMap jobToks == secs.flatMap secToks && jobs.all fun j => 0 < j.len
 
-/-- File names as `NewInfo` leaves them: none empty, non-padding names pairwise distinct. -/
+/-- File names as `NewInfo` leaves them: none empty, and two different non-padding files never
+share a name (`duplicate file name` is rejected; padding files may repeat, BEP 47). -/
 def namesOK (files : List FileEnt) : Bool :=
   files.all (fun f => f.name != 0) &&
-  ((files.filter fun f => !f.pad).map (·.name)).Nodup
+  decide (files.Pairwise fun f g => (f.pad || g.pad || f.name != g.name) = true)
+
+/-- The sections of pieces `[b, e)`. -/
+def secsOfRange (ps : List Piece) (b e : Nat) : List Sec := allSecs ((ps.drop b).take (e - b))
 
 end Rain.Geometry
